@@ -11,7 +11,8 @@ From Ont Require Export Lib.Bytes Lib.CorrLib Model.AddBlock.
 Local Open Scope N_scope.
 Open Scope bool_scope.
 
-Inductive via := VWire | VMem | VSubmit | VVerify.
+Inductive via := VWire | VMem | VSubmit | VVerify | VHeader | VHeaders.
+(* OVerify also carries the result of AddHeader / AddHeaders (an error or nil) *)
 Inductive ores := OOut (o : outcome) | OVerify (e : option err).
 
 Record obs := mkObs {
@@ -98,6 +99,8 @@ Section Run.
         let '(st', r) := submit_block_entry mroot bkaddr io st (of_blk o)
                            (match of_ex o with Some r => r | None => dummy_exec end) in (st', OOut r)
     | VVerify => (st, OVerify (verify_block bkaddr st (b_hdr (of_blk o))))
+    | VHeader => let '(st', e) := add_header bkaddr st (b_hdr (of_blk o)) in (st', OVerify e)
+    | VHeaders => let '(st', e) := add_headers bkaddr st [b_hdr (of_blk o)] in (st', OVerify e)
     end.
 
   Fixpoint run_offers (bb be : N) (st : ledger) (l : list offer) : bool :=
